@@ -667,6 +667,7 @@ func (c *Client) Do(ctx context.Context, q Query) (err error) {
 			span.End()
 		}()
 	}
+	parent := ctx
 	g, ctx := errgroup.WithContext(ctx)
 	done := make(chan struct{})
 	var (
@@ -775,16 +776,27 @@ func (c *Client) Do(ctx context.Context, q Query) (err error) {
 		return nil
 	})
 	if err := g.Wait(); err != nil {
-		return c.queryFailed(err, gotException.Load())
+		return c.queryFailed(parent, err, gotException.Load())
 	}
 	return nil
 }
 
 // queryFailed is called when query has failed and all goroutines of Do are
 // done. It leaves the client either closed or ready for the next request.
-func (c *Client) queryFailed(err error, exception bool) error {
+func (c *Client) queryFailed(ctx context.Context, err error, exception bool) error {
 	// Never send leftovers of the failed query ahead of the next request.
 	c.writer.Reset()
+	if ctxErr := ctx.Err(); ctxErr != nil {
+		// Caller gave up on the query, whatever else happened to it: cancel
+		// it if that is not done yet and report the context error.
+		if !c.IsClosed() {
+			err = multierr.Append(err, c.cancelQuery())
+		}
+		if !errors.Is(err, ctxErr) {
+			err = multierr.Append(err, ctxErr)
+		}
+		return err
+	}
 	if !exception {
 		// Unless the server itself ended the query with an exception, the
 		// connection can be in the middle of the query and can't be reused.
